@@ -155,6 +155,110 @@ theorem compactSize_ne_nil (n : Nat) : Spec.Wire.compactSize n ≠ [] := by
 theorem witStack_ne_nil (s : WitStack) : Spec.Wire.witStack s ≠ [] := by
   simp [Spec.Wire.witStack, Spec.Wire.vec, compactSize_ne_nil]
 
+/-- fields in wire range pass the validating constructor -/
+theorem ctorValid_of_range (t : Tx) (h : TxRange t) : ctorValid t = true := by
+  obtain ⟨_, _, _, _, h5, _, _, _, h9⟩ := h
+  unfold ctorValid
+  simp only [Bool.and_eq_true, decide_eq_true_eq, List.all_eq_true, beq_iff_eq]
+  refine ⟨by omega, ?_⟩
+  intro i hi
+  obtain ⟨⟨h1, h2⟩, _, h3⟩ := h5 i hi
+  exact ⟨⟨h1, by omega⟩, by omega⟩
+
+theorem mapM_ok_inv {α β : Type} (f : α → Res β) : ∀ (xs : List α) (ys : List β),
+    xs.mapM f = .ok ys → ∀ x ∈ xs, ∃ y, f x = .ok y := by
+  intro xs
+  induction xs with
+  | nil => intro ys _ x hx; simp at hx
+  | cons a r ih =>
+    intro ys h x hx
+    rw [List.mapM_cons] at h
+    cases ha : f a with
+    | error e => simp [ha, bind, Except.bind] at h
+    | ok b =>
+      cases hr : r.mapM f with
+      | error e => simp [ha, hr, bind, Except.bind] at h
+      | ok bs =>
+        simp only [List.mem_cons] at hx
+        rcases hx with rfl | hx
+        · exact ⟨b, ha⟩
+        · exact ih bs hr x hx
+
+theorem bind_ok_inv {α β : Type} {x : Res α} {f : α → Res β} {b : β} (h : (x >>= f) = .ok b) :
+    ∃ a, x = .ok a ∧ f a = .ok b := by
+  cases x with
+  | error e => cases h
+  | ok a => exact ⟨a, rfl, h⟩
+
+/-- a transaction whose (stripped) serialisation exists passes the validating constructor: the
+    serialiser's own `struct.pack` ranges and 32-byte assert are at least as strict -/
+theorem ctorValid_of_ser (t : Tx) (inc : Bool) (s : Bytes) (h : serTx t inc = .ok s) : ctorValid t = true := by
+  have key : (∃ v, serVector serTxIn t.vin = .ok v) ∧ (∃ l, packU 4 t.nLockTime = .ok l) := by
+    unfold serTx at h
+    obtain ⟨ver, _, h⟩ := bind_ok_inv h
+    dsimp only at h
+    split at h
+    · split at h
+      · obtain ⟨_, hthrow, _⟩ := bind_ok_inv h
+        cases hthrow
+      · obtain ⟨vin, hvin, h⟩ := bind_ok_inv h
+        obtain ⟨vout, _, h⟩ := bind_ok_inv h
+        obtain ⟨w, _, h⟩ := bind_ok_inv h
+        obtain ⟨body, _, h⟩ := bind_ok_inv h
+        obtain ⟨l, hl, _⟩ := bind_ok_inv h
+        exact ⟨⟨vin, hvin⟩, ⟨l, hl⟩⟩
+    · obtain ⟨vin, hvin, h⟩ := bind_ok_inv h
+      obtain ⟨vout, _, h⟩ := bind_ok_inv h
+      obtain ⟨body, _, h⟩ := bind_ok_inv h
+      obtain ⟨l, hl, _⟩ := bind_ok_inv h
+      exact ⟨⟨vin, hvin⟩, ⟨l, hl⟩⟩
+  obtain ⟨⟨v, hv⟩, ⟨l, hl⟩⟩ := key
+  have hl' : t.nLockTime < 256 ^ 4 := by
+    unfold packU at hl
+    by_cases hc : t.nLockTime < 256 ^ 4
+    · exact hc
+    · simp [hc] at hl
+  have hins : ∀ i ∈ t.vin, ∃ y, serTxIn i = .ok y := by
+    unfold serVector at hv
+    cases hc : serVarInt t.vin.length with
+    | error e => simp [hc, bind, Except.bind] at hv
+    | ok c =>
+      cases hm : t.vin.mapM serTxIn with
+      | error e => simp [hc, hm, bind, Except.bind] at hv
+      | ok ys => exact mapM_ok_inv serTxIn t.vin ys hm
+  unfold ctorValid
+  simp only [Bool.and_eq_true, decide_eq_true_eq, List.all_eq_true, beq_iff_eq]
+  refine ⟨by omega, ?_⟩
+  intro i hi
+  obtain ⟨y, hy⟩ := hins i hi
+  unfold serTxIn at hy
+  cases ho : serOutPoint i.prevout with
+  | error e => simp [ho, bind, Except.bind] at hy
+  | ok o =>
+    cases hb : serBytes i.scriptSig with
+    | error e => simp [ho, hb, bind, Except.bind] at hy
+    | ok b =>
+      cases hq : packU 4 i.nSequence with
+      | error e => simp [ho, hb, hq, bind, Except.bind] at hy
+      | ok q =>
+        have hq' : i.nSequence < 256 ^ 4 := by
+          unfold packU at hq
+          by_cases hc : i.nSequence < 256 ^ 4
+          · exact hc
+          · simp [hc] at hq
+        unfold serOutPoint at ho
+        by_cases hlen : i.prevout.hash.length = 32
+        · cases hn : packU 4 i.prevout.n with
+          | error e => simp [hlen, hn, bind, Except.bind] at ho
+          | ok n =>
+            have hn' : i.prevout.n < 256 ^ 4 := by
+              unfold packU at hn
+              by_cases hc : i.prevout.n < 256 ^ 4
+              · exact hc
+              · simp [hc] at hn
+            exact ⟨⟨hlen, by omega⟩, by omega⟩
+        · simp [hlen, throw, throwThe, MonadExceptOf.throw, bind, Except.bind] at ho
+
 /-- `GetTxid` -/
 theorem getTxid_ok (t : Tx) (h : TxRange t) : getTxid t = .ok (Spec.Merkle.txid t) := by
   have hw := serWitness_ok t.wit h.2.2.2.2.2.2.2.1
@@ -171,7 +275,7 @@ theorem getTxid_ok (t : Tx) (h : TxRange t) : getTxid t = .ok (Spec.Merkle.txid 
     simp only [hnil, ne_eq, not_true_eq_false, if_false]
     rw [serTx_true t h]
     simp [Spec.Wire.txBytes, Tx.hasWitness, hwit, witIsNull, Spec.Merkle.txid, Except.map]
-  · simp only [ne_eq, hnil, not_false_eq_true, if_true]
+  · simp only [ne_eq, hnil, not_false_eq_true, if_true, ctorValid_of_range t h]
     rw [serTx_strip t h]
     simp [Spec.Merkle.txid, Except.map]
 
